@@ -45,7 +45,7 @@ pub fn eval(p: &Prog, which: u32) -> (String, Option<String>, bool, u64) {
                         T::Var(k) => proj.iter().position(|i| i == k).map(|i| T::Num(a[i])),
                         _ => None,
                     });
-                    Ans { terms: vec![t], constraints: vec![], relevant: vec![vec![]], constrained: vec![false] }.show("")
+                    Ans { terms: vec![t], constraints: vec![], relevant: vec![vec![]], constrained: vec![false], counters: None }.show("")
                 })
                 .collect();
             let got: Vec<String> = answers.iter().map(|a| a.show("")).collect();
